@@ -442,8 +442,11 @@ macro_rules! with_shape {
             // a length prefix as wide as usize over multi-byte items: count x size can wrap
             27 => $m!(List<PackedValue<u32>, u64>),
             28 => $m!($crate::shapes::E3),
+            // a length prefix as wide as usize over ONE-byte items: count = byte length, so a count near 2^64 is an advance
+            // near usize::MAX (pointer arithmetic on the cursor can wrap)
+            29 => $m!(List<u8, u64>),
             _ => panic!("unknown shape"),
         }
     };
 }
-pub const N_SHAPES: i128 = 29;
+pub const N_SHAPES: i128 = 30;
